@@ -108,6 +108,13 @@ def _cases(tier, seed):
             cs.append({'scen': 'tt_scalar', 's': s})
     for op in ('add', 'mul', 'rmul', 'sub'):
         cs.append({'scen': 'tt_scalar', 's': {'op': op, 'N': [2, 3], 'R': [1, 2, 1], 'dtype': 'complex128', 'skind': 'complex'}})
+    # concrete numpy scalars of every kind (complex ones keep their imaginary part; float32 / int ones their value)
+    for nt, cv in (('complex128', [2.0, 1.0]), ('complex128', [0.0, 2.0]), ('float32', 0.5), ('int64', 3), ('float64', 0.1)):
+        for op in ('mul', 'rmul', 'add', 'sub', 'div'):
+            for dt in ('float64', 'complex128'):
+                if nt.startswith('complex') and (op not in ('mul', 'rmul')):
+                    continue
+                cs.append({'scen': 'tt_scalar', 's': {'op': op, 'N': [2, 3], 'R': [1, 2, 1], 'dtype': dt, 'skind': 'npscalar', 'nptype': nt, 'cval': cv}})
     # zero scalars on tensors of every dtype
     for dt in ('complex128', 'float32', 'complex64'):
         for op in ('mul', 'rmul', 'add', 'sub', 'rsub'):
